@@ -3,7 +3,9 @@ package props
 import (
 	"bytes"
 	"fmt"
+	"math/rand"
 	"regexp"
+	"sort"
 	"strings"
 
 	"github.com/tyler-sommer/stick"
@@ -18,7 +20,8 @@ import (
 // C12 — auto-escaping: no unescaped data reaches the output of a Twig environment.
 type c12 struct {
 	base
-	nEnum, nRand int
+	nEnum, nRand, nProg int
+	progFilters         []string
 }
 
 func init() { fw.Register("C12", func() fw.Property { return &c12{} }) }
@@ -215,9 +218,78 @@ func (p *c12) Init(tier string, seed int64) {
 	p.tier, p.seed = tier, seed
 	p.nEnum = len(c12Names) * len(c12Constructs) * 2
 	p.nRand = p.pick(2000, 200000)
+	p.nProg = p.pick(4000, 150000)
+	for name := range twig.New(nil).Filters {
+		if name != "raw" {
+			p.progFilters = append(p.progFilters, name)
+		}
+	}
+	sort.Strings(p.progFilters)
 }
 
-func (p *c12) N() int { return p.nEnum + p.nRand }
+func (p *c12) N() int { return p.nEnum + p.nRand + p.nProg }
+
+// c12ProgContext: every string that can reach a print is a hostile payload.
+func c12ProgContext(r *rand.Rand) map[string]stick.Value {
+	pl := func() string { return c12Payloads[r.Intn(len(c12Payloads))] }
+	th := gen.NewThing()
+	th.Name = pl()
+	th.Attrs = map[string]stick.Value{"k": pl()}
+	arr := []stick.Value{pl(), pl()}
+	return map[string]stick.Value{
+		"x": pl(), "s": pl(), "es": "", "ns": pl(), "t": true, "f": false, "nul": nil, "n": 3, "z": 0,
+		"arr": arr, "parr": &arr, "earr": []stick.Value{}, "vals": []stick.Value{1, pl(), nil},
+		"m": map[string]stick.Value{"k": pl()}, "em": map[string]stick.Value{}, "obj": th, "pt": &th,
+		"str": gen.ValStringer{S: pl()}, "safeother": stick.NewSafeValue(pl(), "js"), "nested": map[string]stick.Value{"in": map[string]stick.Value{"k": []stick.Value{pl()}}},
+	}
+}
+
+func (p *c12) program(i int) (map[string]string, map[string]stick.Value) {
+	r := gen.Rng(p.seed, "c12prog", i)
+	vars := []string{"x", "s", "es", "ns", "t", "f", "nul", "n", "z", "arr", "parr", "earr", "vals", "m", "em", "obj", "pt", "str", "safeother", "nested"}
+	g := &gen.ProgGen{R: r, Hostile: false, Inert: true, SingleEntryHashes: true, Vars: vars, IterVars: []string{"arr", "parr", "earr", "vals", "m", "em"}, Filters: p.progFilters, Funcs: []string{"echo"}}
+	ts, _ := g.Program()
+	return (&Program{Templates: ts, Main: "main"}).sources(gen.Canon{}), c12ProgContext(r)
+}
+
+// runProgram: whole-output safety on a random program whose own text is inert.
+func (p *c12) runProgram(res *fw.Result, i int) {
+	src, ctx := p.program(i)
+	env := twig.New(&stick.MemoryLoader{Templates: src})
+	env.Functions["echo"] = func(c stick.Context, args ...stick.Value) stick.Value {
+		out := ""
+		for _, a := range args {
+			out += stick.CoerceString(a)
+		}
+		return out
+	}
+	var buf bytes.Buffer
+	mon.BeginExec()
+	var err error
+	var pan interface{}
+	func() {
+		defer func() { pan = recover() }()
+		err = env.Execute("main", &buf, ctx)
+	}()
+	_, _, steps := mon.EndCall()
+	res.AddObs("exec_steps", steps)
+	res.AddObs("programs_scanned", 1)
+	out := buf.String()
+	key := fmt.Sprintf("c12:prog:%d:%d", p.seed, i)
+	if pan != nil {
+		res.AddClass("program/panic(C02)")
+		return
+	}
+	_ = err
+	if ok, ch := inertFor("html", out); !ok {
+		res.Fail("unsafe-output", key, fmt.Sprintf("output %q contains %q, which is significant in HTML; the templates' own text is inert, so it comes from context data that was printed unescaped", clip(out, 400), ch),
+			map[string]interface{}{"templates": src, "context": fmt.Sprintf("%v", ctx["x"])})
+	}
+	if strings.ContainsAny(out, "&") {
+		res.Sigs = append(res.Sigs, key)
+	}
+	res.AddClass("program/" + okOrErr(err))
+}
 
 func c12helper(main string, variant int) string {
 	if variant == 0 {
@@ -261,7 +333,7 @@ func (p *c12) caseAt(i int) c12case {
 var tplAlphabet = "ABCDEFGHIJKLMNOPQRSTUVWXYZabcdefghijklmnopqrstuvwxyz0123456789 []|:"
 
 var (
-	reHTMLAmp = regexp.MustCompile(`&(amp|lt|gt|quot|#39|#[0-9]+|#x[0-9A-Fa-f]+);`)
+	reHTMLAmp = regexp.MustCompile(`(?i)&(amp|lt|gt|quot|#39|#[0-9]+|#x[0-9A-Fa-f]+);`)
 	reJSU     = regexp.MustCompile(`\\u[0-9A-Fa-f]{4}`)
 	reCSSH    = regexp.MustCompile(`\\[0-9A-Fa-f]{1,6}`)
 	reURLH    = regexp.MustCompile(`%[0-9A-Fa-f]{2}`)
@@ -317,6 +389,10 @@ func (p *c12) payloadsFor(i int) []string {
 }
 
 func (p *c12) Describe(i int) interface{} {
+	if i >= p.nEnum+p.nRand {
+		src, _ := p.program(i)
+		return map[string]interface{}{"kind": "random program with inert own text, hostile context", "templates": src}
+	}
 	c := p.caseAt(i % p.nEnum)
 	main, tpls, _ := p.templates(c)
 	return map[string]interface{}{"main": main, "construct": c12Constructs[c.construct].name, "helper_variant": c.variant, "templates": tpls, "payloads": len(p.payloadsFor(i)), "wrappers": c12Wrappers}
@@ -360,6 +436,10 @@ func (l *c12loader) Load(name string) (stick.Template, error) {
 }
 
 func (p *c12) Run(i int) (res fw.Result) {
+	if i >= p.nEnum+p.nRand {
+		p.runProgram(&res, i)
+		return
+	}
 	c := p.caseAt(i % p.nEnum)
 	con := c12Constructs[c.construct]
 	main, tpls, sites := p.templates(c)
@@ -488,7 +568,7 @@ func (p *c12) Run(i int) (res fw.Result) {
 }
 
 func (p *c12) Rule() string {
-	return fmt.Sprintf("exhaustive product for single-construct templates: %d template names (html, html.twig, js, js.twig, css, txt, txt.twig, no extension, .twig only, unknown extensions xml/foo/json/HTML, url, html_attr, names with a dot in a directory part, and inline sources through the string loader with and without dots) x %d constructs (top level, if/else/elseif, for, for-else, for..if, loop value, block, nested, overridden/inherited block, three-level chain, parent(), block(), include, include-with-only, embed with override, set-capture, filter section, macro, imported macro, ternary, concatenation, interpolation, via set, attribute access, filter results, raw, explicit escape) x helper template of the same / a different content type x %d payloads x 4 value wrappers (plain, safe for the same type, safe for another type, nested safe for other types); random payloads over the significant alphabet on top. Every print is bracketed by inert sentinels; template literal text uses an inert alphabet. Oracles: (exactness) each directly printed segment equals escaper(value) applied once for the content type of the template that contains the print (statement's rule: registered extension, txt = none, html otherwise), raw and same-type-safe values unchanged, explicit escape = implicit; (safety) in single-type cases the whole output contains no character significant for that type outside escape sequences - this also covers prints routed through captures, filter sections, macros, block() and parent(). Non-trivial = the payload contains a character the resolved escaper changes; distinct = (name, construct, helper variant, payload, wrapper).", len(c12Names), len(c12Constructs), len(c12Payloads))
+	return fmt.Sprintf("exhaustive product for single-construct templates: %d template names (html, html.twig, js, js.twig, css, txt, txt.twig, no extension, .twig only, unknown extensions xml/foo/json/HTML, url, html_attr, names with a dot in a directory part, and inline sources through the string loader with and without dots) x %d constructs (top level, if/else/elseif, for, for-else, for..if, loop value, block, nested, overridden/inherited block, three-level chain, parent(), block(), include, include-with-only, embed with override, set-capture, filter section, macro, imported macro, ternary, concatenation, interpolation, via set, attribute access, filter results, raw, explicit escape) x helper template of the same / a different content type x %d payloads x 4 value wrappers (plain, safe for the same type, safe for another type, nested safe for other types); random payloads over the significant alphabet on top; plus seeded random multi-template programs (every tag, inheritance, include/embed/use/import, macros, captures, filter sections, all built-in filters except raw) whose own text and string literals are inert while every context string is a hostile payload - their whole output must be HTML-inert. Every print is bracketed by inert sentinels; template literal text uses an inert alphabet. Oracles: (exactness) each directly printed segment equals escaper(value) applied once for the content type of the template that contains the print (statement's rule: registered extension, txt = none, html otherwise), raw and same-type-safe values unchanged, explicit escape = implicit; (safety) in single-type cases the whole output contains no character significant for that type outside escape sequences - this also covers prints routed through captures, filter sections, macros, block() and parent(). Non-trivial = the payload contains a character the resolved escaper changes; distinct = (name, construct, helper variant, payload, wrapper).", len(c12Names), len(c12Constructs), len(c12Payloads))
 }
 
 func (p *c12) Assumptions() []string {
@@ -497,5 +577,5 @@ func (p *c12) Assumptions() []string {
 }
 
 func (p *c12) Floors(tier string) map[string]int64 {
-	return map[string]int64{"direct_prints_checked": 20000, "whole_outputs_scanned": 10000, "distinct_nontrivial": 5000}
+	return map[string]int64{"direct_prints_checked": 20000, "whole_outputs_scanned": 10000, "programs_scanned": 2000, "distinct_nontrivial": 5000}
 }
